@@ -171,6 +171,31 @@ func TestVerifOPRFTamper(t *testing.T) {
 			}
 			lib.Violation("C16:tamper-accepted:oprf."+mn+".Finalize:"+component, mon, d)
 		}
+		// the proof removed altogether (verifiable modes): the client must not
+		// finalise; whether it refuses with an error or by panicking on the
+		// missing proof is not judged here (typed misuse, not bytes)
+		if m != oprf.BaseMode {
+			var outs [][]byte
+			var ferr error
+			pn := lib.Try("oprf."+mn+".Finalize:proof-stripped", nil, func() {
+				outs, ferr = oFinalize(su, m, pk, fd, &oprf.Evaluation{Elements: ev.Elements, Proof: nil}, info)
+			})
+			lib.Count("tamper:proof-stripped")
+			if pn == nil && ferr == nil {
+				lib.Violation("C16:tamper-accepted:oprf."+mn+".Finalize:proof-stripped", mon, withKV(base, "outputs", hexes(outs)))
+			}
+			// ... and with an element replaced as well
+			if n > 0 {
+				es := append([]oprf.Evaluated(nil), ev.Elements...)
+				es[0] = gr.randElement(r)
+				pn = lib.Try("oprf."+mn+".Finalize:proof-stripped", nil, func() {
+					outs, ferr = oFinalize(su, m, pk, fd, &oprf.Evaluation{Elements: es, Proof: nil}, info)
+				})
+				if pn == nil && ferr == nil {
+					lib.Violation("C16:tamper-accepted:oprf."+mn+".Finalize:proof-stripped", mon, withKV(base, "outputs", hexes(outs), "element_replaced", true))
+				}
+			}
+		}
 		withElt := func(i int, x group.Element) *oprf.Evaluation {
 			es := append([]oprf.Evaluated(nil), ev.Elements...)
 			es[i] = x
